@@ -57,17 +57,19 @@ def oracle(case, obs):
     elif kind == "push":
         if lc <= rc:
             fails.append({"oracle": "push_without_new_event", "detail": "every local commit is on the remote but a push was chosen"})
-        if len(out) != len(L) + len(R):
-            fails.append({"oracle": "merged_count", "detail": "merged %d records from %d+%d" % (len(out), len(L), len(R))})
+        keep = [x for x in L if x[0] not in rc] + R
+        if len(out) != len(keep):
+            fails.append({"oracle": "merged_count", "detail": "merged %d records, expected %d (local events not on the remote + remote)" % (len(out), len(keep))})
         if times != sorted(times):
             fails.append({"oracle": "merged_sorted", "detail": "merged records are not in timestamp order: %s" % times})
-        if sorted(times) != sorted([t for _, t in L + R]):
+        if sorted(times) != sorted([t for _, t in keep]):
             fails.append({"oracle": "merged_perm", "detail": "merged timestamps are not a permutation of the inputs"})
         # byte-identical events on both sides must count as one (property text)
-        dup = lc & rc
-        if dup:
+        commits = [x.split(":")[0] for x in out]
+        lk, rk = [k for k, _ in L], [k for k, _ in R]
+        if len(set(lk)) == len(lk) and len(set(rk)) == len(rk) and len(set(commits)) != len(commits):
             fails.append({"oracle": "exactly_once", "identical_event_both_sides": True,
-                          "detail": "event(s) %s present in both suffixes are kept twice in the merged patch" % sorted(dup)})
+                          "detail": "an event present in both suffixes is kept twice in the merged patch"})
     else:
         fails.append({"oracle": "no_result", "detail": obs[0][:100]})
     return fails
